@@ -20,6 +20,53 @@ use std::collections::{BTreeMap, BTreeSet, HashMap};
 use syn::spanned::Spanned;
 use syn::{Block, Expr, ImplItem, Item, Pat, Stmt};
 
+thread_local! {
+    /// `const NAME: .. = literal;` of the translated files: labels carry the value, not the name
+    static CONSTS: std::cell::RefCell<BTreeMap<String, String>> = std::cell::RefCell::new(BTreeMap::new());
+    /// struct fields recognised by their type: the atomic word of the signal / of the lock, the slot, the waker
+    static FIELD_ALIAS: std::cell::RefCell<BTreeMap<String, String>> = std::cell::RefCell::new(BTreeMap::new());
+}
+
+fn const_value(name: &str) -> Option<String> {
+    CONSTS.with(|m| m.borrow().get(name).cloned())
+}
+fn field_alias(name: &str) -> String {
+    FIELD_ALIAS.with(|m| m.borrow().get(name).cloned()).unwrap_or_else(|| name.to_string())
+}
+
+/// constants and field types of one source file (call before building automata)
+pub fn learn_names(file: &str, f: &syn::File) {
+    for item in &f.items {
+        match item {
+            Item::Const(c) => {
+                if let Expr::Lit(l) = &*c.expr {
+                    CONSTS.with(|m| m.borrow_mut().insert(c.ident.to_string(), toks(&l.lit)));
+                }
+            }
+            Item::Struct(st) => {
+                for fld in st.fields.iter() {
+                    if let Some(id) = &fld.ident {
+                        let ty = toks(&fld.ty);
+                        let alias = if ty.contains("Atomic") {
+                            Some(if file.starts_with("mutex") { "locked" } else { "state" })
+                        } else if ty.contains("KanalPtr") {
+                            Some("ptr")
+                        } else if ty.contains("KanalWaker") {
+                            Some("waker")
+                        } else {
+                            None
+                        };
+                        if let Some(a) = alias {
+                            FIELD_ALIAS.with(|m| m.borrow_mut().insert(id.to_string(), a.to_string()));
+                        }
+                    }
+                }
+            }
+            _ => {}
+        }
+    }
+}
+
 #[derive(Clone)]
 pub struct FnDef {
     pub file: String,
@@ -69,7 +116,12 @@ pub fn collect(file: &str, f: &syn::File, out: &mut Vec<FnDef>) {
                                     continue;
                                 }
                                 let exported = !matches!(x.vis, syn::Visibility::Inherited);
-                                out.push(mk(&stem, &id.to_string(), "", &x.sig, exported, &x.block));
+                                let mut d = mk(&stem, &id.to_string(), "", &x.sig, exported, &x.block);
+                                // the qualified name of a macro-generated method does not mention the macro
+                                let base = format!("{}.{}", stem, d.name);
+                                let k = out.iter().filter(|o: &&FnDef| o.qname == base || o.qname.starts_with(&format!("{}#", base))).count();
+                                d.qname = if k == 0 { base } else { format!("{}#{}", base, k + 1) };
+                                out.push(d);
                             }
                         }
                     }
@@ -747,7 +799,10 @@ impl<'a> B<'a> {
                         None => match full.as_str() {
                             "self" | "this" => Val::pure("self"),
                             "None" => Val::ctor("None", vec![]),
-                            _ => Val::pure(&full),
+                            _ => match const_value(&full) {
+                                Some(v) => Val::pure(&v),
+                                None => Val::pure(&full),
+                            },
                         },
                     }
                 } else {
@@ -777,7 +832,7 @@ impl<'a> B<'a> {
             }
             Expr::Field(f) => {
                 let mut o = self.eval(&f.base, p);
-                let m = toks(&f.member);
+                let m = field_alias(&toks(&f.member));
                 let mut res = Out::default();
                 res.absorb_control(&mut o);
                 for (q, v) in o.normal {
